@@ -4,5 +4,6 @@ CONSTANTS
   CIDS = {"c1"}
   MaxOps = 2
   MaxOut = 1
+  HandoffOrdered = TRUE
 INVARIANTS E2EInv ErrorKept
 PROPERTIES EventuallyAgrees
